@@ -42,6 +42,10 @@ func (pConn *PFCPConn) handleSessionEstablishmentRequest(msg message.Message) (m
 		return pfdres, errUnmarshal(err)
 	}
 
+	if sereq.NodeID == nil || sereq.CPFSEID == nil {
+		return errUnmarshalReply(errMandatoryIEMissing, nil)
+	}
+
 	nodeID, err := sereq.NodeID.NodeID()
 	if err != nil {
 		return errUnmarshalReply(err, sereq.NodeID)
